@@ -72,7 +72,34 @@ pub struct ProgGen<'a> {
     loop_depth: u32,
     pending_labels: Vec<String>,
     cur_sub_kw: &'static str,
+    /// FOR ... STEP loops enclosing the statement being generated: no label is placed inside one (a label in a
+    /// FOR ... STEP body is emitted twice, known finding C05-a)
+    step_for_depth: u32,
+    /// > 0 while generating statements that a backward jump to a block label may execute again (no READ there:
+    /// every READ has exactly one DATA item)
+    replay_depth: u32,
+    /// the handler installed at the start of the main module, restored after a `RESUME label` pattern
+    main_handler: Option<String>,
+    /// FOR statements (with or without STEP) enclosing the statement being generated
+    for_depth: u32,
+    /// see `Ext`
+    pub ext: Ext,
     pub features: Vec<&'static str>,
+}
+
+/// Options beyond `Opts` (kept apart so that the binaries that spell out every field of `Opts` need not change).
+#[derive(Clone, Debug, Default)]
+pub struct Ext {
+    /// labels inside blocks of every kind (CASE / CASE ELSE, THEN / ELSEIF / ELSE, WHILE / DO bodies, FOR bodies without
+    /// STEP) with bounded jumps to them (GOTO; RESUME label where ON ERROR is enabled) from the same block, from another
+    /// block of the same IF / SELECT CASE, from a nested construct.  Off by default: the respellings of C02 duplicate
+    /// blocks (a block holding a label cannot be duplicated) and the core fragment of C01 / C02 has no labels; with the
+    /// option off the generator draws exactly the random numbers it drew before the option existed.
+    pub block_labels: bool,
+    /// allow the target of a `RESUME label` to lie inside a FOR body / a SELECT CASE block (the VM cuts the register and
+    /// value stacks back to the label's recorded depths, 1a4d83d).  Off by default: the certificate checker of C15 takes
+    /// every RESUME label target for the entry of an activation at relative depth zero and refuses such lists.
+    pub resume_label_in_for_select: bool,
 }
 
 #[derive(Clone)]
@@ -112,6 +139,11 @@ impl<'a> ProgGen<'a> {
             loop_depth: 0,
             pending_labels: vec![],
             cur_sub_kw: "",
+            step_for_depth: 0,
+            replay_depth: 0,
+            main_handler: None,
+            for_depth: 0,
+            ext: Ext::default(),
             features: vec![],
         }
     }
@@ -269,6 +301,22 @@ impl<'a> ProgGen<'a> {
         }
     }
 
+    /// a header operand with a known value that still runs a user FUNCTION between the parts of the header:
+    /// `n + 0 * Fn(args)` (after a wave-9 seed: a user FUNCTION runs in the register frame of its caller, so what a FOR at the
+    /// callee's top level leaves in the registers must not reach the construct whose header made the call).
+    /// Nothing is drawn when the program has no FUNCTION: programs without procedures stay what they were
+    fn header_operand(&mut self, n: String) -> String {
+        let fns: Vec<usize> = self.subs.iter().enumerate().filter(|(_, s)| s.is_function).map(|(i, _)| i).collect();
+        if fns.is_empty() || !self.rng.chance(1, 4) {
+            return n;
+        }
+        let info = self.subs[*self.rng.pick(&fns)].clone();
+        let args = self.call_args(&info);
+        self.feat("call-in-header");
+        let call = if args.is_empty() { info.name.clone() } else { format!("{}({})", info.name, args.join(", ")) };
+        format!("{} + 0 * {}", n, call)
+    }
+
     fn fresh_name(&mut self, prefix: &str) -> String {
         self.fresh += 1;
         format!("{}{}", prefix, self.fresh)
@@ -309,13 +357,189 @@ impl<'a> ProgGen<'a> {
         self.emit(out, format!("{} = {}", v, e));
     }
 
-    fn block(&mut self, depth: u32) -> Vec<String> {
-        let mut out = vec![];
+    /// Labels inside blocks (CASE / CASE ELSE, THEN / ELSEIF / ELSE, WHILE / DO bodies, FOR bodies without STEP) with
+    /// bounded jumps to them are generated when `Ext::block_labels` asks for them and forward GOTOs and jumps out of
+    /// blocks are both enabled.
+    fn block_labels(&self) -> bool {
+        self.ext.block_labels && self.opts.goto_fwd && self.opts.jumps_out
+    }
+
+    fn host_feature(host: &str) -> &'static str {
+        match host {
+            "then" => "label-in-then",
+            "elseif" => "label-in-elseif",
+            "else" => "label-in-else",
+            "case" => "label-in-case",
+            "case-else" => "label-in-case-else",
+            "while" => "label-in-while",
+            "do" => "label-in-do",
+            "for" => "label-in-for",
+            _ => "label-in-block",
+        }
+    }
+
+    /// A label for the block `host` and a bounded jump to it: (the lines of the label, the lines of the jump).
+    /// The jump is `n = n + 1 : IF n < k THEN GOTO label` (a fresh counter: taken k - 1 times at most, so a backward
+    /// jump terminates) or, in the main module with ON ERROR enabled, a failing statement under a handler of its own
+    /// that ends in `RESUME label` (the handler of the main module is restored behind the label and behind the failing
+    /// statement, so no other error ever resumes at the label); the jumping statement sits directly in the block or
+    /// inside a nested construct of its own (SELECT CASE, FOR, WHILE, IF, FOR in SELECT CASE, SELECT CASE in FOR,
+    /// SELECT CASE in SELECT CASE), which the jump leaves.
+    fn label_and_jump(&mut self, host: &'static str, layout: &'static str) -> (Vec<String>, Vec<String>) {
+        self.feat(Self::host_feature(host));
+        self.feat(layout);
+        let l = self.fresh_name("Bk");
+        let id = self.fresh;
+        let n = format!("Bn{}%", id);
+        let lim = self.rng.range(2, 3);
+        let r = self.recase(&l);
+        let nested = self.sel_depth > 0 || self.for_depth > 0 || matches!(host, "case" | "case-else" | "for");
+        let by_resume = self.opts.on_error && !self.in_sub && (self.ext.resume_label_in_for_select || !nested) && self.rng.chance(1, 3);
+        let restore = match &self.main_handler {
+            Some(h) => format!("ON ERROR GOTO {}", h),
+            None => "ON ERROR GOTO 0".to_owned(),
+        };
+        let mut label_lines = vec![format!("{}:", l)];
+        let core = if by_resume {
+            self.feat("resume-label-in-block");
+            self.feat(match host {
+                "case" | "case-else" => "resume-label-in-select-block",
+                "for" => "resume-label-in-for-body",
+                _ => "resume-label-in-other-block",
+            });
+            let h = format!("Bh{}", id);
+            self.handlers.push((h.clone(), vec!["PRINT \"ERR\"; ERR".to_owned(), format!("RESUME {}", r)]));
+            label_lines.push(restore.clone());
+            format!("IF {} < {} THEN Bv! = 1 / Bz%", n, lim)
+        } else {
+            format!("IF {} < {} THEN GOTO {}", n, lim, r)
+        };
+        let q = format!("Bq{}%", id);
+        let ind = |v: Vec<String>| -> Vec<String> { v.into_iter().map(|x| format!("  {}", x)).collect() };
+        let in_select = |rng: &mut Rng, v: Vec<String>| -> Vec<String> {
+            let mut o = vec![];
+            if rng.chance(1, 2) {
+                o.push("SELECT CASE 1".to_owned());
+                o.push("CASE 1".to_owned());
+                o.extend(ind(v));
+            } else {
+                o.push("SELECT CASE 1".to_owned());
+                o.push("CASE 2".to_owned());
+                o.push("  PRINT \"no\"".to_owned());
+                o.push("CASE ELSE".to_owned());
+                o.extend(ind(v));
+            }
+            o.push("END SELECT".to_owned());
+            o
+        };
+        let in_for = |v: Vec<String>, q: &str| -> Vec<String> {
+            let mut o = vec![format!("FOR {} = 1 TO 2", q)];
+            o.extend(ind(v));
+            o.push("NEXT".to_owned());
+            o
+        };
+        let wrapped = match self.rng.below(12) {
+            0..=2 => vec![core],
+            3 | 4 => {
+                self.feat("jump-from-nested-select");
+                in_select(self.rng, vec![core])
+            }
+            5 | 6 => {
+                self.feat("jump-from-nested-for");
+                in_for(vec![core], &q)
+            }
+            7 => {
+                self.feat("jump-from-nested-while");
+                let w = format!("Bw{}%", id);
+                let mut o = vec![format!("{} = 0", w), format!("WHILE {} < 2", w), format!("  {} = {} + 1", w, w)];
+                o.extend(ind(vec![core]));
+                o.push("WEND".to_owned());
+                o
+            }
+            8 => {
+                self.feat("jump-from-nested-if");
+                let mut o = vec![format!("IF {} > 0 THEN", n)];
+                o.extend(ind(vec![core]));
+                o.push("ELSE".to_owned());
+                o.push("  PRINT \"no\"".to_owned());
+                o.push("END IF".to_owned());
+                o
+            }
+            9 => {
+                self.feat("jump-from-for-in-select");
+                let f = in_for(vec![core], &q);
+                in_select(self.rng, f)
+            }
+            10 => {
+                self.feat("jump-from-select-in-for");
+                let f = in_select(self.rng, vec![core]);
+                in_for(f, &q)
+            }
+            _ => {
+                self.feat("jump-from-select-in-select");
+                let f = in_select(self.rng, vec![core]);
+                in_select(self.rng, f)
+            }
+        };
+        let mut jump_lines = vec![format!("{} = {} + 1", n, n)];
+        if by_resume {
+            jump_lines.push(format!("ON ERROR GOTO Bh{}", id));
+            jump_lines.extend(wrapped);
+            jump_lines.push(restore);
+        } else {
+            jump_lines.extend(wrapped);
+        }
+        (label_lines, jump_lines)
+    }
+
+    /// the statements of a block, one entry per generated statement; now and then (see `block_labels`) with a label at
+    /// one statement boundary and a bounded jump to it at another one of the same block (before it: the jump skips
+    /// forward; behind it: the statements in between run again)
+    fn block_parts(&mut self, host: &'static str, depth: u32) -> Vec<Vec<String>> {
+        let with_label = self.block_labels() && self.step_for_depth == 0 && self.rng.chance(1, 24);
+        if with_label {
+            self.replay_depth += 1;
+        }
+        let mut parts = vec![];
         let n = self.rng.range(1, self.opts.max_block as i64);
         for _ in 0..n {
+            let mut out = vec![];
             self.stmt(&mut out, depth);
+            parts.push(out);
         }
-        out
+        if with_label {
+            self.replay_depth -= 1;
+            let a = self.rng.below(parts.len() as u64 + 1) as usize;
+            let b = self.rng.below(parts.len() as u64 + 1) as usize;
+            let (label_lines, jump_lines) = self.label_and_jump(host, if b >= a { "jump-back-in-same-block" } else { "jump-forward-in-same-block" });
+            if b >= a {
+                parts.insert(b, jump_lines);
+                parts.insert(a, label_lines);
+            } else {
+                parts.insert(a, label_lines);
+                parts.insert(b, jump_lines);
+            }
+        }
+        parts
+    }
+
+    fn block_in(&mut self, host: &'static str, depth: u32) -> Vec<String> {
+        self.block_parts(host, depth).concat()
+    }
+
+    /// a label in one block of an IF / SELECT CASE statement and a bounded jump to it from another block of the same
+    /// statement
+    fn sibling_jump(&mut self, blocks: &mut [Vec<Vec<String>>], hosts: &[&'static str]) {
+        let i = self.rng.below(blocks.len() as u64) as usize;
+        let mut j = self.rng.below(blocks.len() as u64 - 1) as usize;
+        if j >= i {
+            j += 1;
+        }
+        let (label_lines, jump_lines) = self.label_and_jump(hosts[i], "jump-from-sibling-block");
+        let a = self.rng.below(blocks[i].len() as u64 + 1) as usize;
+        blocks[i].insert(a, label_lines);
+        let b = self.rng.below(blocks[j].len() as u64 + 1) as usize;
+        blocks[j].insert(b, jump_lines);
     }
 
     fn indent(lines: Vec<String>) -> Vec<String> {
@@ -349,7 +573,7 @@ impl<'a> ProgGen<'a> {
             0..=2 => self.print_stmt(out),
             3..=5 => self.assign_stmt(out),
             6 => {
-                if self.opts.data && !self.in_sub && self.loop_depth == 0 {
+                if self.opts.data && !self.in_sub && self.loop_depth == 0 && self.replay_depth == 0 {
                     self.read_stmt(out)
                 } else {
                     self.print_stmt(out)
@@ -375,21 +599,30 @@ impl<'a> ProgGen<'a> {
             }
             8..=10 => {
                 self.feat("if");
+                // now and then a label in one block and a bounded jump to it from another block of the same IF
+                let sib = self.block_labels() && self.step_for_depth == 0 && self.rng.chance(1, 24);
                 let c = self.cond(1);
-                self.emit(out, format!("IF {} THEN", c));
-                let b = self.block(depth - 1);
-                out.extend(Self::indent(b));
+                let mut heads = vec![format!("IF {} THEN", c)];
+                let mut hosts: Vec<&'static str> = vec!["then"];
+                let mut blocks = vec![self.block_parts("then", depth - 1)];
                 let n_elseif = self.rng.range(0, 2);
                 for _ in 0..n_elseif {
                     let c = self.cond(0);
-                    self.emit(out, format!("ELSEIF {} THEN", c));
-                    let b = self.block(depth - 1);
-                    out.extend(Self::indent(b));
+                    heads.push(format!("ELSEIF {} THEN", c));
+                    hosts.push("elseif");
+                    blocks.push(self.block_parts("elseif", depth - 1));
                 }
-                if self.rng.chance(1, 2) {
-                    self.emit(out, "ELSE".into());
-                    let b = self.block(depth - 1);
-                    out.extend(Self::indent(b));
+                if self.rng.chance(1, 2) || (sib && blocks.len() < 2) {
+                    heads.push("ELSE".into());
+                    hosts.push("else");
+                    blocks.push(self.block_parts("else", depth - 1));
+                }
+                if sib {
+                    self.sibling_jump(&mut blocks, &hosts);
+                }
+                for (h, b) in heads.into_iter().zip(blocks.into_iter()) {
+                    self.emit(out, h);
+                    out.extend(Self::indent(b.concat()));
                 }
                 self.emit(out, "END IF".into());
             }
@@ -400,10 +633,11 @@ impl<'a> ProgGen<'a> {
                 let c = format!("{}%", c);
                 let n = self.rng.range(0, 3);
                 self.emit(out, format!("{} = 0", c));
+                let n = self.header_operand(n.to_string());
                 self.emit(out, format!("WHILE {} < {}", c, n));
                 self.emit(out, format!("  {} = {} + 1", c, c));
                 self.loop_depth += 1;
-                let b = self.block(depth - 1);
+                let b = self.block_in("while", depth - 1);
                 self.loop_depth -= 1;
                 out.extend(Self::indent(b));
                 self.emit(out, "WEND".into());
@@ -425,9 +659,9 @@ impl<'a> ProgGen<'a> {
                     self.feat("until-value");
                     format!("UNTIL {}", c)
                 } else if until {
-                    format!("UNTIL {} >= {}", c, n)
+                    format!("UNTIL {} >= {}", c, self.header_operand(n.to_string()))
                 } else {
-                    format!("WHILE {} < {}", c, n)
+                    format!("WHILE {} < {}", c, self.header_operand(n.to_string()))
                 };
                 if top {
                     self.emit(out, format!("DO {}", cond));
@@ -442,7 +676,7 @@ impl<'a> ProgGen<'a> {
                     self.emit(out, format!("  {} = {} + {}", c, c, inc));
                 }
                 self.loop_depth += 1;
-                let b = self.block(depth - 1);
+                let b = self.block_in("do", depth - 1);
                 self.loop_depth -= 1;
                 out.extend(Self::indent(b));
                 if top {
@@ -543,6 +777,10 @@ impl<'a> ProgGen<'a> {
             to_s = "40000".to_owned();
             from_s = "39998".to_owned();
         }
+        // a user FUNCTION call in the lower bound, the upper bound, the step
+        let from_s = self.header_operand(from_s);
+        let to_s = self.header_operand(to_s);
+        let step_s = if step_s.is_empty() { step_s } else { self.header_operand(step_s) };
         self.emit(out, format!("FOR {} = {} TO {}{}", v, from_s, to_s, step_s));
         self.counters_in_use.push(v.clone());
         let step_is_var = step.as_ref().map(|s| s.chars().next().map(|c| c.is_ascii_alphabetic()).unwrap_or(false)).unwrap_or(false);
@@ -552,7 +790,16 @@ impl<'a> ProgGen<'a> {
             }
         }
         self.loop_depth += 1;
-        let b = self.block(depth - 1);
+        let has_step = step.is_some() || zero_step;
+        if has_step {
+            self.step_for_depth += 1;
+        }
+        self.for_depth += 1;
+        let b = self.block_in("for", depth - 1);
+        self.for_depth -= 1;
+        if has_step {
+            self.step_for_depth -= 1;
+        }
         self.loop_depth -= 1;
         out.extend(Self::indent(b));
         if step.is_some() && step_is_var {
@@ -572,7 +819,12 @@ impl<'a> ProgGen<'a> {
         let t = if is_str { Ty::Str } else { Ty::Int };
         let e = self.expr(t, 1);
         self.emit(out, format!("SELECT CASE {}", e));
-        let n = self.rng.range(0, 3);
+        // now and then a label in one block and a bounded jump to it from another block of the same SELECT CASE
+        let sib = self.block_labels() && self.step_for_depth == 0 && self.rng.chance(1, 5);
+        let mut heads: Vec<String> = vec![];
+        let mut hosts: Vec<&'static str> = vec![];
+        let mut blocks: Vec<Vec<Vec<String>>> = vec![];
+        let n = self.rng.range(0, 3).max(if sib { 1 } else { 0 });
         for _ in 0..n {
             let m = self.rng.range(1, 2);
             let mut items = vec![];
@@ -594,18 +846,27 @@ impl<'a> ProgGen<'a> {
                 };
                 items.push(item);
             }
-            self.emit(out, format!("CASE {}", items.join(", ")));
+            heads.push(format!("CASE {}", items.join(", ")));
+            hosts.push("case");
             self.sel_depth += 1;
-            let b = self.block(depth - 1);
+            let b = self.block_parts("case", depth - 1);
             self.sel_depth -= 1;
-            out.extend(Self::indent(b));
+            blocks.push(b);
         }
-        if self.rng.chance(1, 2) {
-            self.emit(out, "CASE ELSE".into());
+        if self.rng.chance(1, 2) || (sib && blocks.len() < 2) {
+            heads.push("CASE ELSE".into());
+            hosts.push("case-else");
             self.sel_depth += 1;
-            let b = self.block(depth - 1);
+            let b = self.block_parts("case-else", depth - 1);
             self.sel_depth -= 1;
-            out.extend(Self::indent(b));
+            blocks.push(b);
+        }
+        if sib {
+            self.sibling_jump(&mut blocks, &hosts);
+        }
+        for (h, b) in heads.into_iter().zip(blocks.into_iter()) {
+            self.emit(out, h);
+            out.extend(Self::indent(b.concat()));
         }
         self.emit(out, "END SELECT".into());
     }
@@ -647,6 +908,11 @@ impl<'a> ProgGen<'a> {
     fn call_stmt(&mut self, out: &mut Vec<String>) {
         let idx = self.rng.below(self.subs.len() as u64) as usize;
         let info = self.subs[idx].clone();
+        let args = self.call_args(&info);
+        self.call_with(out, info, args)
+    }
+
+    fn call_args(&mut self, info: &SubInfo) -> Vec<String> {
         let mut args = vec![];
         for p in &info.params {
             let a = match self.rng.below(4) {
@@ -665,6 +931,10 @@ impl<'a> ProgGen<'a> {
             };
             args.push(a);
         }
+        args
+    }
+
+    fn call_with(&mut self, out: &mut Vec<String>, info: SubInfo, args: Vec<String>) {
         if info.is_function {
             self.feat("function-call");
             let v = self.var(info.ret);
@@ -723,6 +993,7 @@ impl<'a> ProgGen<'a> {
             };
             self.handlers.push((h.clone(), vec!["PRINT \"ERR\"; ERR".to_owned(), resume.to_owned()]));
             let r = self.recase(&h);
+            self.main_handler = Some(h.clone());
             main.push(format!("ON ERROR GOTO {}", r));
         }
         let n = self.rng.range(2, self.opts.top_stmts as i64);
@@ -872,7 +1143,12 @@ impl<'a> ProgGen<'a> {
 }
 
 pub fn generate(rng: &mut Rng, opts: &Opts) -> (String, Vec<&'static str>) {
+    generate_ext(rng, opts, &Ext::default())
+}
+
+pub fn generate_ext(rng: &mut Rng, opts: &Opts, ext: &Ext) -> (String, Vec<&'static str>) {
     let mut g = ProgGen::new(rng, opts.clone());
+    g.ext = ext.clone();
     let text = g.program();
     (text, g.features.clone())
 }
@@ -911,4 +1187,444 @@ pub fn grid(rng: &mut Rng) -> String {
     }
     out.push("PRINT V%".to_owned());
     out.join("\n") + "\n"
+}
+
+/// Family `arg-faults` (after a wave-9 seed: the clean-up after a handled error dropped the argument-collecting
+/// states before the failed built-in's own context, so a built-in function failing INSIDE an argument list left the
+/// enclosing call's argument state on the context stack for good; a procedure's return then popped the wrong state).
+///
+/// One run-time fault raised INSIDE an argument list: a failing built-in function (`CHR$(300)`, `MID$("abc", 0)`,
+/// `SPACE$(-1)`, `STRING$(-1, 65)`, `LEFT$("abc", -1)`, `VAL` of 401 digits, `INSTR(0, ..)`, `LBOUND(A%, 9)`, a built-in
+/// failing inside a built-in), a subscript out of range or a division by zero — as an argument of a user SUB (both call
+/// spellings, first and second argument), of a user FUNCTION (also with an operand pending), of another built-in (one
+/// and two deep), as a PRINT item, as an array subscript (both sides of an assignment), as a DIM bound, and as the
+/// argument of a user FUNCTION whose result is the argument of a built-in that is the argument of a SUB;
+/// at the module level, in a FOR body (the error happens in every round), one procedure deep (SUB; SUB with FOR;
+/// FUNCTION called with an operand pending) and two deep — each followed by more calls, by the procedures' normal
+/// returns and, after the cause has been repaired, by the same statement once more;
+/// under ON ERROR RESUME NEXT, a handler ending in RESUME NEXT, a handler that repairs the cause and ends in RESUME, a
+/// handler ending in RESUME label (back to the module level from any depth), and no handler at all (the run ends with
+/// the BASIC error).  Whatever is left on the context / argument / value stacks is popped by the wrong party later.
+/// Returns (host/fault/context/mode, program); every program is accepted and terminates.
+pub fn arg_fault_programs() -> Vec<(String, String)> {
+    let init = "Q% = 300 : M% = 0 : N1% = -1 : Z% = 0 : Z9% = 9 : T$ = \"1\" + STRING$(400, \"0\")";
+    let repair = "Q% = 65 : M% = 1 : N1% = 1 : Z% = 1 : Z9% = 1 : T$ = \"1\"";
+    // (name, failing expression): string-valued ...
+    let str_faults: [(&str, &str); 5] = [
+        ("chr", "CHR$(Q%)"),
+        ("mid", "MID$(\"abc\", M%)"),
+        ("space", "SPACE$(N1%)"),
+        ("string", "STRING$(N1%, 65)"),
+        ("left", "LEFT$(\"abc\", N1%)"),
+    ];
+    // ... and numeric (after the repair every one of them is 1 or 2)
+    let num_faults: [(&str, &str); 6] = [
+        ("val-overflow", "VAL(T$)"),
+        ("instr", "INSTR(M%, \"abc\", \"b\")"),
+        ("lbound", "LBOUND(A%, Z9%)"),
+        ("len-of-chr", "LEN(CHR$(Q%))"),
+        ("subscript", "A%(Z9%)"),
+        ("div0", "(1 / Z%)"),
+    ];
+    // hosts: {E} = the failing expression, {B} = a fresh array name
+    let str_hosts: [(&str, &str); 12] = [
+        ("sub-arg", "Ps {E}"),
+        ("sub-arg-second", "Ps2 S$, {E}"),
+        ("call-sub-arg", "CALL Ps({E})"),
+        ("function-arg", "V% = 100 + Gs%({E})"),
+        ("function-arg-in-print", "PRINT 100 + Gs%({E}); \"t\""),
+        ("builtin-arg", "V% = 100 + LEN({E})"),
+        ("builtin-arg-deep", "S$ = UCASE$(LEFT$({E}, 1))"),
+        ("print-item", "PRINT \"x\"; {E}; \"y\""),
+        ("lhs-subscript", "A%(LEN({E})) = 1"),
+        ("rhs-subscript", "V% = 100 + A%(LEN({E}))"),
+        ("dim-bound", "DIM {B}%(LEN({E}))"),
+        ("sub-arg-builtin-function", "Ps STR$(Gs%({E}))"),
+    ];
+    let num_hosts: [(&str, &str); 12] = [
+        ("sub-arg", "Pn {E}"),
+        ("sub-arg-second", "Pn2 V%, {E}"),
+        ("call-sub-arg", "CALL Pn({E})"),
+        ("function-arg", "V% = 100 + Gn%({E})"),
+        ("function-arg-in-print", "PRINT 100 + Gn%({E}); \"t\""),
+        ("builtin-arg-deep", "V% = 100 + LEN(STR$({E}))"),
+        ("builtin-count-arg", "S$ = STRING$({E}, 65)"),
+        ("print-item", "PRINT \"x\"; {E}; \"y\""),
+        ("lhs-subscript", "A%({E}) = 1"),
+        ("rhs-subscript", "V% = 100 + A%({E})"),
+        ("dim-bound", "DIM {B}%(1 TO {E} + 1)"),
+        ("sub-arg-function", "Pn Gn%({E})"),
+    ];
+    let contexts = ["top", "in-for", "in-sub", "in-sub-for", "in-function-operand-pending", "in-sub-in-sub"];
+    let modes = ["resume-next-mode", "handler-resume-next", "handler-repair-resume", "handler-resume-label", "no-handler"];
+    let mut pairs: Vec<(String, String, String)> = vec![]; // (host name, fault name, statement)
+    for (hn, h) in str_hosts.iter() {
+        for (fn_, f) in str_faults.iter() {
+            pairs.push(((*hn).to_owned() + "$", (*fn_).to_owned(), h.replace("{E}", f)));
+        }
+    }
+    for (hn, h) in num_hosts.iter() {
+        for (fn_, f) in num_faults.iter() {
+            pairs.push(((*hn).to_owned(), (*fn_).to_owned(), h.replace("{E}", f)));
+        }
+    }
+    let ind = |v: Vec<String>| -> Vec<String> { v.into_iter().map(|l| format!("  {}", l)).collect() };
+    let mut out = vec![];
+    for (hn, fname, stmt) in pairs.iter() {
+        for ctx in contexts.iter() {
+            for mode in modes.iter() {
+                let first = stmt.replace("{B}", "B1");
+                let again = stmt.replace("{B}", "B2");
+                let in_for = |v: Vec<String>, c: &str| -> Vec<String> {
+                    let mut r = vec![format!("FOR {}% = 1 TO 2", c)];
+                    r.extend(ind(v));
+                    r.push(format!("  PRINT \"after, in for\"; {}%", c));
+                    r.push("NEXT".to_owned());
+                    r
+                };
+                let mut p: Vec<String> = vec![
+                    "DECLARE SUB Ps (X$)".to_owned(),
+                    "DECLARE SUB Ps2 (X$, Y$)".to_owned(),
+                    "DECLARE SUB Pn (N%)".to_owned(),
+                    "DECLARE SUB Pn2 (K%, N%)".to_owned(),
+                    "DECLARE FUNCTION Gs% (X$)".to_owned(),
+                    "DECLARE FUNCTION Gn% (N%)".to_owned(),
+                    "DECLARE FUNCTION F% (N%)".to_owned(),
+                    "DECLARE SUB Outer1 ()".to_owned(),
+                    "DECLARE SUB Outer2 ()".to_owned(),
+                    "DIM SHARED Q%, M%, N1%, Z%, Z9%, C%, V%, T$, S$".to_owned(),
+                    "DIM SHARED A%(1 TO 3)".to_owned(),
+                    "A%(1) = 1 : A%(2) = 2 : A%(3) = 3".to_owned(),
+                    init.to_owned(),
+                ];
+                match *mode {
+                    "resume-next-mode" => p.push("ON ERROR RESUME NEXT".to_owned()),
+                    "no-handler" => {}
+                    _ => p.push("ON ERROR GOTO Hh".to_owned()),
+                }
+                let mut o1: Vec<String> = vec!["PRINT \"in O1\"".to_owned()];
+                let mut o2: Vec<String> = vec!["PRINT \"in O2\"".to_owned()];
+                let mut fbody: Vec<String> = vec!["PRINT \"in F\"".to_owned()];
+                let after_in_proc = |name: &str| -> Vec<String> {
+                    vec![format!("PRINT \"after, in {}\"", name), "Pn 1".to_owned(), "V% = Gn%(2) + LEN(STR$(C%))".to_owned()]
+                };
+                match *ctx {
+                    "top" => p.push(first.clone()),
+                    "in-for" => p.extend(in_for(vec![first.clone()], "O")),
+                    "in-sub" => {
+                        p.push("Outer1".to_owned());
+                        o1.push(first.clone());
+                        o1.extend(after_in_proc("O1"));
+                    }
+                    "in-sub-for" => {
+                        p.push("Outer1".to_owned());
+                        o1.extend(in_for(vec![first.clone()], "R"));
+                        o1.extend(after_in_proc("O1"));
+                    }
+                    "in-function-operand-pending" => {
+                        p.push("PRINT 100 + F%(2)".to_owned());
+                        fbody.push(first.clone());
+                        fbody.extend(after_in_proc("F"));
+                    }
+                    _ => {
+                        p.push("Outer2".to_owned());
+                        o2.push("Outer1".to_owned());
+                        o2.extend(after_in_proc("O2"));
+                        o1.push(first.clone());
+                        o1.extend(after_in_proc("O1"));
+                    }
+                }
+                // more calls after the context, then the repaired statement once more
+                p.push("PRINT \"back\"; C%".to_owned());
+                p.push("Pn 2".to_owned());
+                p.push("V% = Gn%(3) + LEN(STR$(V%))".to_owned());
+                p.push("Outer2".to_owned());
+                p.push("After:".to_owned());
+                p.push(repair.to_owned());
+                p.push(again);
+                p.push("PRINT \"end\"; C%; V%".to_owned());
+                p.push("END".to_owned());
+                match *mode {
+                    "handler-resume-next" => {
+                        p.push("Hh:".to_owned());
+                        p.push("PRINT \"h\"; ERR".to_owned());
+                        p.push("RESUME NEXT".to_owned());
+                    }
+                    "handler-repair-resume" => {
+                        p.push("Hh:".to_owned());
+                        p.push(repair.to_owned());
+                        p.push("RESUME".to_owned());
+                    }
+                    "handler-resume-label" => {
+                        p.push("Hh:".to_owned());
+                        p.push("PRINT \"h\"; ERR".to_owned());
+                        p.push("RESUME After".to_owned());
+                    }
+                    _ => {}
+                }
+                p.push("SUB Ps (X$)".to_owned());
+                p.push("  C% = C% + LEN(X$)".to_owned());
+                p.push("END SUB".to_owned());
+                p.push("SUB Ps2 (X$, Y$)".to_owned());
+                p.push("  C% = C% + LEN(X$) + LEN(Y$)".to_owned());
+                p.push("END SUB".to_owned());
+                p.push("SUB Pn (N%)".to_owned());
+                p.push("  C% = C% + N%".to_owned());
+                p.push("END SUB".to_owned());
+                p.push("SUB Pn2 (K%, N%)".to_owned());
+                p.push("  C% = C% + N%".to_owned());
+                p.push("END SUB".to_owned());
+                p.push("FUNCTION Gs% (X$)".to_owned());
+                p.push("  Gs% = LEN(X$) + 1".to_owned());
+                p.push("END FUNCTION".to_owned());
+                p.push("FUNCTION Gn% (N%)".to_owned());
+                p.push("  Gn% = N% + 1".to_owned());
+                p.push("END FUNCTION".to_owned());
+                p.push("FUNCTION F% (N%)".to_owned());
+                p.push("  F% = 7".to_owned());
+                p.extend(ind(fbody));
+                p.push("END FUNCTION".to_owned());
+                p.push("SUB Outer1".to_owned());
+                p.extend(ind(o1));
+                p.push("END SUB".to_owned());
+                p.push("SUB Outer2".to_owned());
+                p.extend(ind(o2));
+                p.push("END SUB".to_owned());
+                out.push((format!("{}/{}/{}/{}", hn, fname, ctx, mode), p.join("\n") + "\n"));
+            }
+        }
+    }
+    out
+}
+
+/// Directed family `block-labels`: a label inside a block of every kind (THEN / ELSEIF / ELSE, CASE / CASE ELSE, WHILE,
+/// DO with the test at the top / at the bottom, FOR without STEP) and a jump to it
+///   * from the same block behind it (the statements in between run again; bounded by a counter), from the same block
+///     before it, or from another block of the same IF / SELECT CASE statement,
+///   * written directly in that block or inside a nested construct that the jump leaves (SELECT CASE, FOR, WHILE, IF,
+///     FOR in SELECT CASE, SELECT CASE in FOR, SELECT CASE in SELECT CASE),
+///   * by GOTO, or by a failing statement whose handler ends in RESUME label,
+///   * the whole at the module level, inside a module-level FOR body, inside a module-level CASE block, inside a SUB
+///     called from a FOR body, inside a FUNCTION called with an operand pending (the last two: GOTO only, a RESUME
+///     label target lives in the main module).
+/// Every program prints its counters, runs a FOR + SELECT CASE nest afterwards (the stacks must be sane) and
+/// terminates.  Returns (name of the combination, program).  A label inside a FOR ... STEP body is left out (known
+/// finding C05-a).
+pub fn block_label_family() -> Vec<(String, String)> {
+    let hosts = ["then", "elseif", "else", "case", "case-else", "while", "do-top", "do-bottom", "for"];
+    let wraps = ["none", "select", "select-else", "for", "while", "if", "for-in-select", "select-in-for", "select-in-select"];
+    let ind = |v: Vec<String>| -> Vec<String> { v.into_iter().map(|l| format!("  {}", l)).collect() };
+    let sv = |v: &[&str]| -> Vec<String> { v.iter().map(|x| (*x).to_owned()).collect() };
+    let mut out = vec![];
+    for host in hosts {
+        for layout in ["back", "forward", "sibling"] {
+            let is_branch = matches!(host, "then" | "elseif" | "else" | "case" | "case-else");
+            if layout == "sibling" && !is_branch {
+                continue;
+            }
+            for wrap in wraps {
+                for jump in ["goto", "resume"] {
+                    for ctx in ["top", "in-for", "in-select", "in-sub", "in-function"] {
+                        if jump == "resume" && (ctx == "in-sub" || ctx == "in-function") {
+                            continue;
+                        }
+                        // ---- the jump
+                        let core = if jump == "goto" { "IF T% < 3 THEN GOTO Lb".to_owned() } else { "IF T% < 3 THEN V! = 1 / Z%".to_owned() };
+                        let sel = |v: Vec<String>, in_else: bool| -> Vec<String> {
+                            let mut o = vec!["SELECT CASE 1".to_owned()];
+                            if in_else {
+                                o.extend(sv(&["CASE 2", "  PRINT \"no\"", "CASE ELSE"]));
+                            } else {
+                                o.push("CASE 1".to_owned());
+                            }
+                            o.extend(ind(v));
+                            o.push("END SELECT".to_owned());
+                            o
+                        };
+                        let fr = |v: Vec<String>| -> Vec<String> {
+                            let mut o = vec!["FOR Q% = 1 TO 2".to_owned()];
+                            o.extend(ind(v));
+                            o.push("NEXT".to_owned());
+                            o
+                        };
+                        let wrapped: Vec<String> = match wrap {
+                            "none" => vec![core],
+                            "select" => sel(vec![core], false),
+                            "select-else" => sel(vec![core], true),
+                            "for" => fr(vec![core]),
+                            "while" => {
+                                let mut o = sv(&["U% = 0", "WHILE U% < 2", "  U% = U% + 1"]);
+                                o.extend(ind(vec![core]));
+                                o.push("WEND".to_owned());
+                                o
+                            }
+                            "if" => {
+                                let mut o = vec!["IF T% > 0 THEN".to_owned()];
+                                o.extend(ind(vec![core]));
+                                o.extend(sv(&["ELSE", "  PRINT \"no\"", "END IF"]));
+                                o
+                            }
+                            "for-in-select" => sel(fr(vec![core]), false),
+                            "select-in-for" => fr(sel(vec![core], true)),
+                            _ => sel(sel(vec![core], true), false),
+                        };
+                        let mut jump_lines = vec!["T% = T% + 1".to_owned()];
+                        let mut label_lines = vec!["Lb:".to_owned()];
+                        if jump == "resume" {
+                            jump_lines.push("ON ERROR GOTO Hr".to_owned());
+                            jump_lines.extend(wrapped);
+                            jump_lines.push("ON ERROR GOTO Hm".to_owned());
+                            label_lines.push("ON ERROR GOTO Hm".to_owned());
+                        } else {
+                            jump_lines.extend(wrapped);
+                        }
+                        // ---- the block(s)
+                        let (main_block, other_block): (Vec<String>, Option<Vec<String>>) = match layout {
+                            "back" => {
+                                let mut b = sv(&["PRINT \"a\""]);
+                                b.extend(label_lines);
+                                b.push("PRINT \"b\"; T%".to_owned());
+                                b.extend(jump_lines);
+                                b.push("PRINT \"c\"".to_owned());
+                                (b, None)
+                            }
+                            "forward" => {
+                                let mut b = sv(&["PRINT \"a\""]);
+                                b.extend(jump_lines);
+                                b.push("PRINT \"not always\"".to_owned());
+                                b.extend(label_lines);
+                                b.push("PRINT \"c\"; T%".to_owned());
+                                (b, None)
+                            }
+                            _ => {
+                                let mut lb = sv(&["PRINT \"l0\""]);
+                                lb.extend(label_lines);
+                                lb.push("PRINT \"l1\"; T%".to_owned());
+                                let mut jb = sv(&["PRINT \"j0\""]);
+                                jb.extend(jump_lines);
+                                jb.push("PRINT \"j1\"".to_owned());
+                                (lb, Some(jb))
+                            }
+                        };
+                        // ---- the host statement: `main_block` holds the label; with a sibling layout the block that runs is
+                        // the other one
+                        let sib = other_block.is_some();
+                        let other = other_block.unwrap_or_else(|| sv(&["PRINT \"other\""]));
+                        let mut h: Vec<String> = vec![];
+                        match host {
+                            "then" => {
+                                h.push(if sib { "IF 1 = 0 THEN".to_owned() } else { "IF 1 = 1 THEN".to_owned() });
+                                h.extend(ind(main_block));
+                                h.push("ELSE".to_owned());
+                                h.extend(ind(other));
+                                h.push("END IF".to_owned());
+                            }
+                            "elseif" => {
+                                h.extend(sv(&["IF 1 = 0 THEN", "  PRINT \"t\""]));
+                                h.push(if sib { "ELSEIF 1 = 0 THEN".to_owned() } else { "ELSEIF 1 = 1 THEN".to_owned() });
+                                h.extend(ind(main_block));
+                                h.push("ELSE".to_owned());
+                                h.extend(ind(other));
+                                h.push("END IF".to_owned());
+                            }
+                            "else" => {
+                                h.push(if sib { "IF 1 = 1 THEN".to_owned() } else { "IF 1 = 0 THEN".to_owned() });
+                                h.extend(ind(other));
+                                h.push("ELSE".to_owned());
+                                h.extend(ind(main_block));
+                                h.push("END IF".to_owned());
+                            }
+                            "case" => {
+                                h.push(if sib { "SELECT CASE 7".to_owned() } else { "SELECT CASE 2".to_owned() });
+                                h.extend(sv(&["CASE 1", "  PRINT \"c1\"", "CASE 2"]));
+                                h.extend(ind(main_block));
+                                h.push("CASE ELSE".to_owned());
+                                h.extend(ind(other));
+                                h.push("END SELECT".to_owned());
+                            }
+                            "case-else" => {
+                                h.push(if sib { "SELECT CASE 1".to_owned() } else { "SELECT CASE 7".to_owned() });
+                                h.push("CASE 1".to_owned());
+                                h.extend(ind(other));
+                                h.push("CASE ELSE".to_owned());
+                                h.extend(ind(main_block));
+                                h.push("END SELECT".to_owned());
+                            }
+                            "while" => {
+                                h.extend(sv(&["W% = 0", "WHILE W% < 2", "  W% = W% + 1"]));
+                                h.extend(ind(main_block));
+                                h.push("WEND".to_owned());
+                            }
+                            "do-top" => {
+                                h.extend(sv(&["W% = 0", "DO UNTIL W% >= 2", "  W% = W% + 1"]));
+                                h.extend(ind(main_block));
+                                h.push("LOOP".to_owned());
+                            }
+                            "do-bottom" => {
+                                h.extend(sv(&["W% = 0", "DO", "  W% = W% + 1"]));
+                                h.extend(ind(main_block));
+                                h.push("LOOP WHILE W% < 2".to_owned());
+                            }
+                            _ => {
+                                h.push("FOR F% = 1 TO 2".to_owned());
+                                h.extend(ind(main_block));
+                                h.push("  PRINT \"f\"; F%".to_owned());
+                                h.push("NEXT".to_owned());
+                            }
+                        }
+                        // ---- the context
+                        let sane = sv(&["FOR S9% = 1 TO 2", "  SELECT CASE S9%", "  CASE 1", "    PRINT \"z1\"", "  CASE ELSE", "    PRINT \"z2\"", "  END SELECT", "NEXT"]);
+                        let mut p: Vec<String> = vec![];
+                        let mut procs: Vec<String> = vec![];
+                        match ctx {
+                            "in-sub" => p.push("DECLARE SUB S ()".to_owned()),
+                            "in-function" => p.push("DECLARE FUNCTION F% (N%)".to_owned()),
+                            _ => {}
+                        }
+                        if jump == "resume" {
+                            p.push("ON ERROR GOTO Hm".to_owned());
+                        }
+                        match ctx {
+                            "top" => p.extend(h),
+                            "in-for" => {
+                                p.push("FOR O% = 1 TO 2".to_owned());
+                                p.extend(ind(h));
+                                p.push("  PRINT \"o\"; O%".to_owned());
+                                p.push("NEXT".to_owned());
+                            }
+                            "in-select" => {
+                                p.extend(sv(&["SELECT CASE 3", "CASE 3"]));
+                                p.extend(ind(h));
+                                p.extend(sv(&["  PRINT \"in case\"", "CASE ELSE", "  PRINT \"e\"", "END SELECT"]));
+                            }
+                            "in-sub" => {
+                                p.extend(sv(&["FOR O% = 1 TO 2", "  S", "  PRINT \"o\"; O%", "NEXT"]));
+                                procs.push("SUB S".to_owned());
+                                procs.extend(ind(h));
+                                procs.push("  PRINT \"s\"; T%".to_owned());
+                                procs.push("END SUB".to_owned());
+                            }
+                            _ => {
+                                p.extend(sv(&["FOR O% = 1 TO 2", "  PRINT 100 + F%(2); O%", "NEXT"]));
+                                procs.push("FUNCTION F% (N%)".to_owned());
+                                procs.push("  F% = 7".to_owned());
+                                procs.extend(ind(h));
+                                procs.push("  PRINT \"s\"; T%".to_owned());
+                                procs.push("END FUNCTION".to_owned());
+                            }
+                        }
+                        p.push("PRINT \"end\"; T%".to_owned());
+                        p.extend(sane);
+                        p.push("END".to_owned());
+                        if jump == "resume" {
+                            p.extend(sv(&["Hr:", "PRINT \"ERR\"; ERR", "RESUME Lb", "Hm:", "PRINT \"main\"; ERR", "RESUME NEXT"]));
+                        }
+                        p.extend(procs);
+                        out.push((format!("{}/{}/{}/{}/{}", host, layout, wrap, jump, ctx), p.join("\n") + "\n"));
+                    }
+                }
+            }
+        }
+    }
+    out
 }
